@@ -28,6 +28,7 @@ def main():
     ap.add_argument("--also", default="")
     ap.add_argument("--meta")
     ap.add_argument("--skip-baseline", action="store_true")
+    ap.add_argument("--out", default="/verif/seeded")
     a = ap.parse_args()
     scratch = "/tmp/seedrun_%s" % a.seed_id
     shutil.rmtree(scratch, ignore_errors=True)
@@ -71,10 +72,12 @@ def main():
         sh("git -C /repo worktree remove --force %s" % scratch)
         shutil.rmtree(scratch, ignore_errors=True)
         shutil.rmtree(scratch + "_evidence", ignore_errors=True)
-    d = os.path.join(VERIF, "seeded", a.seed_id)
+    d = os.path.join(a.out, a.seed_id)
     os.makedirs(d, exist_ok=True)
-    shutil.copy(a.patch, os.path.join(d, "patch.diff"))
-    shutil.copy(a.demo, os.path.join(d, "demo.py"))
+    if os.path.abspath(a.patch) != os.path.join(d, "patch.diff"):
+        shutil.copy(a.patch, os.path.join(d, "patch.diff"))
+    if os.path.abspath(a.demo) != os.path.join(d, "demo.py"):
+        shutil.copy(a.demo, os.path.join(d, "demo.py"))
     meta = {}
     if a.meta and os.path.exists(a.meta):
         try:
